@@ -300,6 +300,16 @@ def check_quat(o):
     # quaternion of any positive scaling denotes the same rotation
     if not L.close(Rotation.init_3d_from_quaternion(3.0 * q).h_matrix, M, 1e-11):
         bad.append(("scaled quaternion gives a different rotation", {}, None))
+    # axis and angle of a rotation about a GENERAL axis rebuild it, sign included (identity and half-turns are excluded)
+    tr = float(np.trace(M[:3, :3]))
+    if abs(tr - 3.0) > 1e-6 and abs(tr + 1.0) > 1e-6:
+        np.random.seed(0)
+        axis, ang = Rotation(M[:3, :3].copy()).axis_and_angle_of_rotation()
+        if axis is None:
+            bad.append(("no axis reported for a proper 3-D rotation", {}, None))
+        elif abs(np.linalg.norm(axis) - 1) > 1e-9 or not L.close(_rodrigues(axis, ang), M[:3, :3], 1e-7):
+            bad.append(("reported 3-D axis/angle does not rebuild the rotation (sign included)",
+                        {"axis": axis, "angle": ang, "rebuilt": _rodrigues(axis, ang), "want": M[:3, :3]}, None))
     return bad
 
 
